@@ -69,6 +69,12 @@ CLAIMED["C07"] = ("other",
     "Assumes integer conversions are identities (amounts < 2^63) and stored balances are non-negative decimal strings; MongoDB and go-diameter trusted.",
     "DESIGN.md §4 C07")
 
+CLAIMED["C08"] = ("other",
+    "linear-form value numbering with store-to-load forwarding and memory merges on go/ssa, enum-set dataflow over the sub-type switch, edge-relation facts for divisors, sibling cross-check of the two unit-cost computations",
+    "Decides for all request values and all stored tariffs at once: every integer division in the SUR handler has a divisor tested non-zero on a dominating edge and database type assertions are checked (no stored tariff crashes the server); every value stored into Price / AllowedUnits equals the statement's polynomial for the Request-Sub-Type values possible on its path (consumed x cost; quota div cost; allowed x cost, 0 only on the zero-cost edge); the server's and the CHF's unit-cost computations are the same polynomial over the tariff object placed in the answer; every path for a found account answers.",
+    "Assumes no 32-bit overflow of the products and exact Pow10 for the exponents used; the floor-division lemma (q div d)*d <= q for d > 0 is used, not proved; decimal fractions are agreed upon by both sides but not judged.",
+    "DESIGN.md §4 C08")
+
 # id -> reason, for properties not (yet) claimed
 NOT_APPLICABLE = {
 }
